@@ -25,6 +25,33 @@ CHECKS = {
                 note="quick covers n<=60 plus {97,128,150} and N<=6,W<=8 plus three large shapes; thorough covers the whole range n<=150, N<=10, W<=14; round trips use finite normal token values (reinflation does (u+u^T)-diag(u) arithmetic)"),
 }
 
+TRACE_NOTE = ("complete runs are driven by seeded synthetic data (piecewise-stationary Gaussian, N<=4, W<=6, K<=5); real-valued clauses rest on "
+              "observation predicates with stated tolerances (DESIGN 4.3); BLAS threads pinned; runs that do not complete are outside the quantifier")
+
+
+def _t(level, design, technique, text, note=TRACE_NOTE):
+    return dict(level=level, design=design, technique=technique, text=text, note=note)
+
+
+CHECKS.update({
+    "C04": _t("model_checking", "6/C04", "TLA+ Stacking model-checked with TLC + TLC trace validation (TraceTiccLoop/TraceStacking) of result shapes of complete runs",
+              "Pad/Split/margin lemmas are invariants of the Stacking state machine checked by TLC on all small tuples; every completed run of both front ends returns a trace whose return event must satisfy the C04 clauses (lengths, exact -1 margins, range, order, K MRFs of NWxNW) computed by TLC from StackOps."),
+    "C05": _t("model_checking", "6/C05", "TLC trace validation: TraceTiccLoop requires the Gaussian log-density observation at every Score (relabel) and at Return; exact dyadic family replayed into the kernels (TraceLikelihood)",
+              "The specification demands at every relabel event that the likelihood table is the log-density under this round's means/MRFs and at return that each per-point value is the log-density under its own cluster; TLC decides where the obligation holds, an independent slogdet/Cholesky formula decides the real comparison."),
+    "C06": _t("model_checking", "6/C06", "TLC trace validation (TraceTiccLoop, C06 clauses) with two-limb integer arithmetic: TLC recomputes every accounting identity",
+              "Every completed run's result is quantised into two-limb integers and TLC recomputes entry counts, sums, means, medians, per-cluster aggregates and cost = -loglik + within-series switching cost from the label lists and series boundaries; the recorded deviation F2b is a named action."),
+    "C07": _t("model_checking", "6/C07", "TLA+ Boundaries theorem + Stacking model-checked with TLC; TLC trace validation of mask helper, joint stacking, joint runs and single-vs-joint memo",
+              "TLC proves on the model that a zero switching cost on boundary pairs decomposes the joint problem; the real mask helper and joint stacking are validated on every tuple in range; every joint run is validated against TiccLoop with the switching cost observed at the labelling step; F2b is a named deviation."),
+    "C09": _t("model_checking", "6/C09", "TLA+ TiccLoop model-checked with TLC (all labellings, interleavings, faults) + TLC trace validation of every event of traced complete runs",
+              "TiccLoop is checked exhaustively on small instances (every initial labelling and relabelling, worker interleavings) for the bound on rounds, the stopping rule, the repopulation rule and 'returns what it scored'; every traced run must be a behaviour of the same specification with all invariants evaluated at every step."),
+    "C12": _t("model_checking", "6/C12", "TLA+ TiccLoop provenance invariants (TLC) + TLC trace validation of statistics/submit events with the O1 observation",
+              "Provenance of statistics and optimiser arguments is state of the specification; traces bind it to digests and the O1 observation (sample mean/covariance of exactly the windows labelled k with the requested estimator)."),
+    "C16": _t("model_checking", "6/C16", "TLC trace validation (TraceTiccLoop return clause) + exact-family replay (TraceMetrics)",
+              "Every completed run's BIC is compared with the definition recomputed from the final model (parameter count by maximal runs, T, log-det via slogdet); finiteness whenever the MRFs are positive definite."),
+    "C17": _t("model_checking", "6/C17", "TLC trace validation (TraceTiccLoop return clause, converged runs) + exact rational replay (TraceMetrics); deviation F5 modelled",
+              "For converged runs with every cluster non-empty the reported index must equal the definition with the per-column centroid; the recorded deviation F5 (scalar centre) is a named action that excuses only values equal to the scalar-centre formula."),
+})
+
 PENDING_REASON = "check not built yet in this round (planned in DESIGN.md section 6); not claimed"
 
 
@@ -74,6 +101,7 @@ def main():
 
 
 SOURCE_COMMITS = ["5d3c2c3"]
+FIX_COMMITS = ["84b773b", "5ef812d"]
 NA = {}
 
 if __name__ == "__main__":
